@@ -4,6 +4,7 @@ import (
 	"bytes"
 	"compress/zlib"
 	"fmt"
+	"math"
 	"sort"
 	"strconv"
 	"strings"
@@ -494,10 +495,72 @@ func rawMessage(r *hlib.Rand) []byte {
 	return b
 }
 
+// proto3 enums are open: any int32 can arrive in EventV2.Priority / EventV2.Type
+var enumValues = []int32{0, 1, 2, 3, 4, 5, 7, -1, -2, -128, math.MinInt32, math.MinInt32 + 1, math.MaxInt32, math.MaxInt32 - 1, 1 << 16, 255, 256, -65536}
+
+func enumValue(r *hlib.Rand) int32 {
+	if r.Chance(1, 2) {
+		return int32(r.Intn(5)) // the declared ones (and one above)
+	}
+	if r.Chance(1, 6) {
+		return int32(r.U64())
+	}
+	return hlib.Pick(r, enumValues)
+}
+
 func eventMessage(r *hlib.Rand) []byte {
 	m := &pb.EventV2{Title: asciiWord(r), Text: asciiWord(r) + " " + asciiWord(r), DateHappened: int64(r.Intn(2000000000)), Hostname: asciiWord(r),
 		AggregationKey: asciiWord(r), SourceTypeName: asciiWord(r), Tags: randTags(r), SourceIP: "10.0.0.1",
-		Priority: pb.EventV2_EventPriority(r.Intn(3)), Type: pb.EventV2_AlertType(r.Intn(5))}
+		Priority: pb.EventV2_EventPriority(enumValue(r)), Type: pb.EventV2_AlertType(enumValue(r))}
+	if r.Chance(1, 8) {
+		m.DateHappened = hlib.Pick(r, []int64{-1, math.MinInt64, math.MaxInt64, 0})
+	}
+	b, err := proto.MarshalOptions{Deterministic: true}.Marshal(m)
+	if err != nil {
+		panic(err)
+	}
+	return b
+}
+
+// hand-encoded EventV2 bodies: Priority (field 9, tag 0x48) and Type (field 10, tag 0x50) as raw
+// varints, including 10-byte ones with the high bits set and over-long ones (decode error)
+func eventEnumBody(r *hlib.Rand) []byte {
+	varints := [][]byte{
+		{0x00}, {0x01}, {0x04}, {0x7f}, {0x80, 0x01},
+		{0xff, 0xff, 0xff, 0xff, 0xff, 0xff, 0xff, 0xff, 0xff, 0x01},       // -1
+		{0x80, 0x80, 0x80, 0x80, 0xf8, 0xff, 0xff, 0xff, 0xff, 0x01},       // MinInt32
+		{0xff, 0xff, 0xff, 0xff, 0x07},                                     // MaxInt32
+		{0xff, 0xff, 0xff, 0xff, 0x0f},                                     // 2^32-1: truncates to -1
+		{0x80, 0x80, 0x80, 0x80, 0x10},                                     // 2^32: truncates to 0
+		{0x80, 0x80, 0x80, 0x80, 0x80, 0x80, 0x80, 0x80, 0x80, 0x01},       // 2^63
+		{0xfe, 0xff, 0xff, 0xff, 0xff, 0xff, 0xff, 0xff, 0xff, 0x01},       // -2
+		{0xff, 0xff, 0xff, 0xff, 0xff, 0xff, 0xff, 0xff, 0xff, 0x7f},       // overflows 64 bits
+		{0x80, 0x80, 0x80, 0x80, 0x80, 0x80, 0x80, 0x80, 0x80, 0x80, 0x01}, // 11 bytes
+		{0x80}, // truncated
+	}
+	b := []byte{0x0a, 0x01, 't'} // Title = "t"
+	for _, tag := range []byte{0x48, 0x50} {
+		if r.Chance(4, 5) {
+			b = append(b, tag)
+			b = append(b, hlib.Pick(r, varints)...)
+		}
+	}
+	if r.Chance(1, 4) { // the same field twice: the last one wins
+		b = append(b, 0x48)
+		b = append(b, hlib.Pick(r, varints)...)
+	}
+	return b
+}
+
+// boundary numbers for the metric payloads
+func rawBoundaryMessage(r *hlib.Rand) []byte {
+	f := hlib.Pick(r, []float64{math.NaN(), math.Inf(1), math.Inf(-1), -0.0, math.MaxFloat64, math.SmallestNonzeroFloat64})
+	m := &pb.RawMessageV2{
+		Counters: map[string]*pb.CounterTagV2{"c": {TagMap: map[string]*pb.RawCounterV2{"": {Value: hlib.Pick(r, []int64{math.MinInt64, math.MaxInt64, -1, 0})}}}},
+		Gauges:   map[string]*pb.GaugeTagV2{"g": {TagMap: map[string]*pb.RawGaugeV2{"k": {Value: f}}}},
+		Timers:   map[string]*pb.TimerTagV2{"t": {TagMap: map[string]*pb.RawTimerV2{"k": {Values: []float64{f, 1}, SampleCount: hlib.Pick(r, []float64{f, -1, 0, 1e300})}}}},
+		Sets:     map[string]*pb.SetTagV2{"s": {TagMap: map[string]*pb.RawSetV2{"k": {Values: []string{"", "a", "a"}}}}},
+	}
 	b, err := proto.MarshalOptions{Deterministic: true}.Marshal(m)
 	if err != nil {
 		panic(err)
@@ -580,6 +643,10 @@ func (g *gen) httpInput() input {
 	switch k := r.Intn(12); {
 	case k == 0:
 		msg, shape = sparseBodies[r.Intn(len(sparseBodies))], "sparse"
+	case k == 2 && ep == "event":
+		msg, shape = eventEnumBody(r), "enum"
+	case k == 2:
+		msg, shape = rawBoundaryMessage(r), "boundary"
 	case k == 1: // the other endpoint's message type
 		if ep == "raw" {
 			msg = eventMessage(r)
